@@ -275,6 +275,10 @@ def _tensors(tier, seed):
         for sc in (-20, 20):
             for sh, rk in (([3, 3], [1, 3, 1]), ([2, 3, 2], [1, 2, 2, 1]), ([3, 2, 3], [1, 3, 3, 1])):
                 out.append(dict(shape=sh, ranks=rk, pat='gen', scale=sc, seed=seed))
+    # extreme scales (absolute tolerances hidden in the code show only here) incl. exactly square unfoldings r_k = n_k r_{k+1}
+    for sc in (-40, -70, 60, -300, 300):
+        for sh, rk in (([3, 3], [1, 3, 1]), ([2, 2, 2], [1, 2, 2, 1]), ([5, 6, 4], [1, 4, 4, 1]), ([3, 2, 3], [1, 3, 3, 1]), ([2, 3, 2, 2], [1, 2, 4, 2, 1])):
+            out.append(dict(shape=sh, ranks=rk, pat='gen', scale=sc, seed=seed))
     return out
 
 
